@@ -189,8 +189,14 @@ inline ptree gen_amg(Tape &t, bool blockval, Cfg *cfg, std::string *text) {
     unsigned npre = static_cast<unsigned>(t.u(0, 2)), npost = static_cast<unsigned>(t.u(0, 2)), ncycle = 1 + static_cast<unsigned>(t.u(0, 1));
     static const unsigned pcs[] = {1, 2, 0};
     unsigned pre_cycles = pcs[t.u(0, 2)];
+    // a W-cycle costs 2^levels coarse visits; slowly coarsening graphs (star, diagonal) give one level per node, so the
+    // number of levels is capped whenever ncycle = 2 (pure cost guard, otherwise unlimited or 1,2,3,5)
+    static const unsigned mls[] = {0, 1, 2, 3, 5};
+    unsigned max_levels = mls[t.u(0, 4)];
+    if (ncycle > 1 && max_levels == 0) max_levels = 5;
+    if (max_levels) p.put("max_levels", max_levels);
     p.put("npre", (npre + 1) % 3); p.put("npost", (npost + 1) % 3); p.put("ncycle", ncycle); p.put("pre_cycles", pre_cycles);
-    std::ostringstream os; os << "amg(" << c << "," << r << ",coarse_enough=" << coarse_enough << ",direct=" << direct << ",npre=" << (npre + 1) % 3 << ",npost=" << (npost + 1) % 3 << ",ncycle=" << ncycle << ",pre_cycles=" << pre_cycles << ")";
+    std::ostringstream os; os << "amg(" << c << "," << r << ",coarse_enough=" << coarse_enough << ",direct=" << direct << ",npre=" << (npre + 1) % 3 << ",npost=" << (npost + 1) % 3 << ",ncycle=" << ncycle << ",pre_cycles=" << pre_cycles << ",max_levels=" << max_levels << ")";
     if (cfg) { cfg->coarsening = c; cfg->relaxation = r; }
     if (text) *text += os.str();
     return p;
